@@ -106,3 +106,27 @@ From NV Require Gen.TlsConfigGen Proofs.TlsListeners.
 Theorem C15_listeners_default_timing : TlsListeners.default_tls_timing TlsConfigGen.listener_options = true.
 Proof. exact TlsListeners.listeners_default_timing. Qed.
 Print Assumptions C15_listeners_default_timing.
+
+(* ---- tie to the code (server/tls_protocol.py handshake timer): the statements of coq/Equiv/EquivTls.v, re-checked here against the definitions regenerated
+   from /repo's working tree (coq/Gen); see DESIGN.md 11.8 ---- *)
+From Coq Require Import List NArith Bool.
+From NV Require Import Prelude.Str Model.TlsPump Equiv.TlsGlue Gen.TlsGen.
+From NV Require Equiv.EquivTls.
+Theorem C15_code_handshake_timeout_value : gen_handshake_timeout_ms = 30000%N.
+Proof. exact EquivTls.handshake_timeout_value. Qed.
+Print Assumptions C15_code_handshake_timeout_value.
+
+Theorem C15_code_tstep_tie : forall fuel s e,
+  wf s -> live s -> model_ev e = true -> ev_size e < fuel ->
+  abs_res (gen_step fuel s e) = Some (tstep (abs s) (abs_ev e)).
+Proof. exact EquivTls.tstep_tie. Qed.
+Print Assumptions C15_code_tstep_tie.
+
+Theorem C15_code_trun_tie : forall fuel evs,
+  forallb model_ev evs = true -> Forall (fun e => ev_size e < fuel) evs ->
+  exists s' a,
+    gen_run fuel cinit evs = (s', a, None) /\ wf s' /\
+    abs_acts a = snd (trun tinit (map abs_ev evs)) /\ teq (abs s') (fst (trun tinit (map abs_ev evs))).
+Proof. exact EquivTls.trun_tie. Qed.
+Print Assumptions C15_code_trun_tie.
+
